@@ -175,15 +175,16 @@ type op struct {
 }
 
 type kase struct {
-	K    string  `json:"k"`
-	ID   string  `json:"id"`
-	Min  int64   `json:"min"`
-	Sec  int64   `json:"sec"`
-	Day  int64   `json:"day"`
-	Spec string  `json:"spec"`
-	Now0 int64   `json:"now0"`
-	Nows []int64 `json:"nows"`
-	Ops  []op    `json:"ops"`
+	K    string          `json:"k"`
+	ID   string          `json:"id"`
+	Min  int64           `json:"min"`
+	Sec  int64           `json:"sec"`
+	Day  int64           `json:"day"`
+	Spec string          `json:"spec"`
+	Now0 int64           `json:"now0"`
+	Nows []int64         `json:"nows"`
+	Ops  []op            `json:"ops"`
+	Real json.RawMessage `json:"real"` // k = "real": see real.go
 }
 
 var cronParser = cron.NewParser(cron.Minute | cron.Hour | cron.Dom | cron.Month | cron.Dow) // = internal/dag/parser.go
@@ -489,6 +490,8 @@ func runCase(c kase) {
 		ticksCase(c)
 	case "sim":
 		simCase(c)
+	case "real":
+		realCase(c)
 	default:
 		say("%s bad-kind", c.ID)
 	}
